@@ -260,7 +260,7 @@ func (e *rlEnv) quiesce() {
 	e.tr.Emit("quiesce", "blocked", blocked, "unavailable", unavail)
 }
 
-func newRLEnv(queue int, nreg int) *rlEnv {
+func newRLEnv(queue int, nreg int, hosts ...string) *rlEnv {
 	e := &rlEnv{tr: &verifsim.Trace{}, single: queue == 1}
 	e.cl = verifsim.NewCluster(e.tr)
 	for _, h := range []string{"ms", "rs1", "rs2", "rs3"} {
@@ -270,7 +270,10 @@ func newRLEnv(queue int, nreg int) *rlEnv {
 	for i := 1; i < nreg; i++ {
 		splits = append(splits, []byte{byte('a' + 5*i)})
 	}
-	e.cl.CreateTable("t", splits, []string{"rs1", "rs2", "rs3"})
+	if len(hosts) == 0 {
+		hosts = []string{"rs1", "rs2", "rs3"}
+	}
+	e.cl.CreateTable("t", splits, hosts)
 	e.c = newSimClient(e.cl, RpcQueueSize(queue))
 	return e
 }
@@ -350,6 +353,36 @@ func TestVerifRequestLoop(t *testing.T) {
 		close(release)
 		time.Sleep(time.Second)
 		e.goPut("a")
+		finish(e, name)
+	})
+	synctest.Test(t, func(t *testing.T) {
+		// two regions share one connection; the connection dies while the first region is between SetClient and
+		// MarkAvailable; a request for the OTHER region notices first and takes the connection out of the cache; the first
+		// region is then released with the dead connection and must still get re-established
+		name := "W1b/shared-connection-dies-in-the-window-other-region-notices-first"
+		e := newRLEnv(1, 2, "rs1")
+		regs := e.cl.OnlineRegions("t")
+		e.goGet("k") // region 1: establishes the shared connection to rs1
+		time.Sleep(time.Second)
+		synctest.Wait()
+		parked, release := make(chan struct{}), make(chan struct{})
+		var once atomic.Bool
+		VerifHook = func(point string, c any, arg any) {
+			if r, ok := arg.(hrpc.RegionInfo); ok && point == "establish.clientSet" && string(r.Name()) == string(regs[0].Name) {
+				if once.CompareAndSwap(false, true) {
+					close(parked)
+					<-release
+				}
+			}
+		}
+		e.goGet("a") // region 0: its establisher shares the connection, probes, parks before MarkAvailable
+		<-parked
+		e.cl.ResetConns("rs1")
+		e.goPut("m") // region 1 notices the dead connection first: clientDown removes it from the cache
+		time.Sleep(2 * time.Second)
+		close(release)
+		time.Sleep(time.Second)
+		e.goPut("b")
 		finish(e, name)
 	})
 	synctest.Test(t, func(t *testing.T) {
